@@ -168,6 +168,9 @@ def run(ctx):
     for lo, o in enumerate(obs):
       ctx.nontrivial((o["cls"], o["ch"], o["row"], o["ind"], o["col"], o["it"], o["ul"], o["nm"], tuple(o["cps"])))
   ctx.evaluations = 65536
+  import os
+  if os.environ.get("VERIF_CORRUPT"):
+    recs[0x94]["ch"][0x2C] = 2        # self-test of the binding: EDM (942C) recorded as channel 2
 
   # 3. disassembly of lines
   maxlen = 4 if ctx.thorough() else 3
